@@ -336,13 +336,13 @@ def run(ctx):
     # ---- 3. spec -> code: call sequences from TLC ---------------------------
     trans = [(t[1], t[2], t[3]) for t in r_cover.printed("TR")]
     paths, nstates, ntrans = cover_paths(
-        trans, rng=ctx.rng, limit=1500 if quick else None)
+        trans, rng=ctx.rng, limit=700 if quick else None)
     ctx.extra["impl_graph"] = {"states": nstates, "transitions": ntrans,
                                "transitions_replayed": len(paths)}
     drivers = []
     for i, calls in enumerate(paths):
         drivers.append(run_calls([vlib.unset(c) for c in calls], variant=i))
-    nsim = 300 if quick else 4000
+    nsim = 100 if quick else 3000
     r_sim, behs = ctx.simulate_behaviours(
         "PullSrvImpl", "PullSrvImplSim.cfg", nsim, 11,
         label="behaviour emission (7 open kinds, 2 namespaces)")
@@ -350,7 +350,7 @@ def run(ctx):
         drivers.append(run_calls(b, variant=i))
     ctx.extra["tlc_behaviours_replayed"] = len(behs)
     # ---- 4. code -> spec: seeded random histories ---------------------------
-    nrand = 1500 if quick else 20000
+    nrand = 1000 if quick else 20000
     for i in range(nrand):
         drivers.append(random_trace(ctx.rng, i))
     if mockrepo.template() is not None:
